@@ -25,6 +25,12 @@
 (*                  does - a handle dropped without close leaves a stale count)              *)
 (*   FixedSeek    : every row write and every SIZE rewrite ends with the stream at the end   *)
 (*                  of the file (FALSE: rows are written where a partial read left it)       *)
+(*   FixedNative  : Recfile.write brings EVERY chunk for a text file to native byte order   *)
+(*                  before the ascii writer formats it (FALSE: only when some column       *)
+(*                  "is not native" by a per-column test that sees the scalar fields only - *)
+(*                  a sub-array field reports native whatever its elements are: a chunk     *)
+(*                  whose only non-native fields are sub-array fields is formatted from     *)
+(*                  byte-swapped memory)                                                    *)
 (*                                                                                        *)
 (* What TLC checks here: the mechanism's own invariants (the SIZE rewrite touches only     *)
 (* the SIZE line and keeps the data offset; the three row counts agree; SIZE = number of   *)
@@ -34,7 +40,7 @@
 (* of the real code.                                                                        *)
 EXTENDS VU, Json
 
-CONSTANTS FixedCompat, FixedCount, FixedMissing, FixedClose, FixedSeek, FixedSizeNow,
+CONSTANTS FixedCompat, FixedCount, FixedMissing, FixedClose, FixedSeek, FixedSizeNow, FixedNative,
           ChunkIds, Hdrs, Delims, Modes,
           MaxDepth,      \* behaviours of at most this many calls
           KeepHist,      \* record the behaviour (export runs); FALSE: states merge (invariant runs)
@@ -55,6 +61,8 @@ ChunkOf(id) ==
       [] id = "n" -> [descr |-> <<"N", "lt">>, rows |-> <<31>>]
       [] id = "t" -> [descr |-> <<"T", "lt">>, rows |-> <<41, 42>>]
       [] id = "o" -> [descr |-> <<"D", "gt">>, rows |-> <<51>>]
+      [] id = "v" -> [descr |-> <<"D", "vg">>, rows |-> <<55, 56>>]
+      [] id = "w" -> [descr |-> <<"D", "sg">>, rows |-> <<58>>]
 NoChunk == [descr |-> RSC!NoDescr, rows |-> <<>>]
 
 \* ---- the file as cells ---------------------------------------------------------------------------
@@ -67,7 +75,11 @@ SizeLine(n) == <<Ch("S"), Ch("I"), Ch("Z"), Ch("E"), Ch(" "), Ch("="), Ch(" ")>>
 SizeLineLen == 28
 Meta(hd, d, dl) == [k |-> "meta", hdr |-> hd, descr |-> d, delim |-> dl]      \* pprint(dict) "\nEND\n\n"
 HdrLen == SizeLineLen + 1                                                     \* the data offset, in cells
-RowCell(t, d, text) == [k |-> "row", tok |-> t, base |-> d[1], order |-> IF text THEN "na" ELSE d[2]]
+\* Recfile.write, text branch: the chunk is converted to native order (the machine is little-endian here) - always, or
+\* (unrepaired) only when the per-column test fires, and that test sees the scalar fields' order only
+LooksNative(o) == o \in {"lt", "vg"}
+TextOrder(o)   == IF o = "lt" \/ FixedNative \/ ~LooksNative(o) THEN "na" ELSE o     \* else: formatted from swapped memory
+RowCell(t, d, text) == [k |-> "row", tok |-> t, base |-> d[1], order |-> IF text THEN TextOrder(d[2]) ELSE d[2]]
 
 NoDisk == [exists |-> FALSE, cells |-> <<>>]
 
